@@ -1,3 +1,705 @@
 package main
 
-func connRun() {}
+// C40: lock-step replay of the scripts printed by specs/Spdy/GenConn.tla against the REAL
+// bfe_spdy server (Server.handleConn + serverConn.serve via the overlay wrapper VerifServeConn)
+// on an in-memory connection (net.Pipe).  The client is built on the repository's own Framer
+// (no independent SPDY implementation is available offline).
+//
+// One script step = one client frame or one handler step.  After a step the harness
+//   1. waits (generous timeout) until the wire shows what the model predicts (Layer M),
+//   2. synchronises with two PING round trips,
+//   3. evaluates the Layer-P expectations printed with the step: outcome in the allowed set,
+//      handlers started, WINDOW_UPDATE sums vs octets consumed, DATA vs the client's windows,
+//      silence on closed streams, body delivery, no panic (bfe_spdy's own panic counters).
+// A difference inside what Layer P allows is reported as drift and ends the case.
+
+import (
+	"encoding/json"
+	"fmt"
+	"io"
+	"net"
+	"os"
+	"sort"
+	"strconv"
+	"strings"
+	"sync"
+	"time"
+
+	"github.com/baidu/go-lib/web-monitor/metrics"
+	http "github.com/bfenetworks/bfe/bfe_http"
+	spdy "github.com/bfenetworks/bfe/bfe_spdy"
+
+	"verifharness/vh"
+)
+
+type sexp struct {
+	ID    uint32 `json:"id"`
+	St    string `json:"st"`
+	H     string `json:"h"`
+	Wu    int64  `json:"wu"`
+	Cons  int64  `json:"cons"`
+	Acc   int64  `json:"acc"`
+	Out   int64  `json:"out"`
+	Lim   int64  `json:"lim"`
+	Buf   int64  `json:"buf"`
+	Rep   bool   `json:"rep"`
+	Fin   bool   `json:"fin"`
+	Quiet bool   `json:"quiet"`
+}
+
+type rstExp struct {
+	ID   uint32 `json:"id"`
+	Code uint32 `json:"code"`
+}
+
+type expState struct {
+	WuC     int64    `json:"wuC"`
+	ConsC   int64    `json:"consC"`
+	OutC    int64    `json:"outC"`
+	LimC    int64    `json:"limC"`
+	Goaway  bool     `json:"goaway"`
+	Dead    bool     `json:"dead"`
+	Started []uint32 `json:"started"`
+	Rsts    []rstExp `json:"rsts"`
+	S       []sexp   `json:"s"`
+}
+
+type cstep struct {
+	A       string   `json:"a"`
+	ID      uint32   `json:"id"`
+	X       int64    `json:"x"`
+	F       bool     `json:"f"`
+	Allowed []string `json:"allowed"`
+	Why     string   `json:"why"`
+	M       string   `json:"m"`
+	Exp     expState `json:"exp"`
+}
+
+type connCase struct {
+	ID    int     `json:"id"`
+	MaxS  uint32  `json:"maxs"`
+	Slow  int     `json:"slow"` // timeout multiplier (re-runs)
+	Steps []cstep `json:"steps"`
+}
+
+// ---- what the client has seen on the wire
+type wire struct {
+	mu      sync.Mutex
+	cond    *sync.Cond
+	wuC     int64
+	wuS     map[uint32]int64
+	out     map[uint32]int64
+	outC    int64
+	rep     map[uint32]int
+	fin     map[uint32]bool
+	rsts    []rstExp
+	goaway  bool
+	closed  bool
+	readErr string
+	pings   map[uint32]bool
+	settled bool // server SETTINGS seen
+	quiet   map[uint32]bool
+	late    []string // frames on streams that must be silent
+	tags    map[uint32]map[byte]bool
+	log     []string
+}
+
+func newWire() *wire {
+	w := &wire{wuS: map[uint32]int64{}, out: map[uint32]int64{}, rep: map[uint32]int{}, fin: map[uint32]bool{},
+		pings: map[uint32]bool{}, quiet: map[uint32]bool{}}
+	w.cond = sync.NewCond(&w.mu)
+	return w
+}
+
+func (w *wire) note(s string) {
+	if len(w.log) < 400 {
+		w.log = append(w.log, s)
+	}
+}
+
+func (w *wire) readLoop(fr *spdy.Framer) {
+	for {
+		f, err := fr.ReadFrame()
+		w.mu.Lock()
+		if err != nil {
+			w.closed = true
+			w.readErr = err.Error()
+			w.note("closed:" + err.Error())
+			w.cond.Broadcast()
+			w.mu.Unlock()
+			return
+		}
+		switch g := f.(type) {
+		case *spdy.SettingsFrame:
+			w.settled = true
+			w.note("settings")
+		case *spdy.WindowUpdateFrame:
+			if g.StreamId == 0 {
+				w.wuC += int64(g.DeltaWindowSize)
+			} else {
+				w.wuS[uint32(g.StreamId)] += int64(g.DeltaWindowSize)
+			}
+			w.note(fmt.Sprintf("wu:%d:%d", g.StreamId, g.DeltaWindowSize))
+		case *spdy.DataFrame:
+			id := uint32(g.StreamId)
+			w.out[id] += int64(len(g.Data))
+			w.outC += int64(len(g.Data))
+			if g.StreamEnded() {
+				w.fin[id] = true
+			}
+			if w.quiet[id] {
+				w.late = append(w.late, fmt.Sprintf("DATA(%d octets, fin=%v) on stream %d", len(g.Data), g.StreamEnded(), id))
+			}
+			w.note(fmt.Sprintf("data:%d:%d:%v", id, len(g.Data), g.StreamEnded()))
+		case *spdy.SynReplyFrame:
+			id := uint32(g.StreamId)
+			w.rep[id]++
+			if g.StreamEnded() {
+				w.fin[id] = true
+			}
+			if w.quiet[id] {
+				w.late = append(w.late, fmt.Sprintf("SYN_REPLY on stream %d", id))
+			}
+			w.note(fmt.Sprintf("reply:%d:%v", id, g.StreamEnded()))
+		case *spdy.RstStreamFrame:
+			w.rsts = append(w.rsts, rstExp{uint32(g.StreamId), uint32(g.Status)})
+			w.note(fmt.Sprintf("rst:%d:%d", g.StreamId, g.Status))
+		case *spdy.GoAwayFrame:
+			w.goaway = true
+			w.note(fmt.Sprintf("goaway:%d:%d", g.LastGoodStreamId, g.Status))
+		case *spdy.PingFrame:
+			w.pings[g.Id] = true
+		default:
+			w.note(fmt.Sprintf("other:%T", f))
+		}
+		w.cond.Broadcast()
+		w.mu.Unlock()
+	}
+}
+
+// waitFor: cond must be called with w.mu held.
+func (w *wire) waitFor(d time.Duration, cond func() bool) bool {
+	deadline := time.Now().Add(d)
+	t := time.AfterFunc(d, func() { w.mu.Lock(); w.cond.Broadcast(); w.mu.Unlock() })
+	defer t.Stop()
+	w.mu.Lock()
+	defer w.mu.Unlock()
+	for !cond() {
+		if time.Now().After(deadline) {
+			return false
+		}
+		w.cond.Wait()
+	}
+	return true
+}
+
+// ---- handlers under harness control
+type hcmd struct {
+	op string
+	n  int64
+}
+type hres struct {
+	op   string
+	n    int64
+	err  string
+	tags map[byte]bool
+}
+type hctl struct {
+	id   uint32
+	cmds chan hcmd
+	res  chan hres
+}
+
+type conn struct {
+	c        connCase
+	w        *wire
+	cli      net.Conn
+	fr       *spdy.Framer
+	wmu      sync.Mutex
+	hmu      sync.Mutex
+	handlers map[uint32]*hctl
+	started  []uint32
+	extra    []string // handler invocations that cannot be attributed
+	base     time.Duration
+	pingSeq  uint32
+}
+
+func (cn *conn) handler(rw http.ResponseWriter, r *http.Request) {
+	id64, err := strconv.ParseUint(r.Header.Get("X-Id"), 10, 32)
+	id := uint32(id64)
+	cn.hmu.Lock()
+	if err != nil {
+		cn.extra = append(cn.extra, "handler invoked without x-id: "+r.Method+" "+r.RequestURI)
+		cn.hmu.Unlock()
+		return
+	}
+	if _, dup := cn.handlers[id]; dup {
+		cn.extra = append(cn.extra, fmt.Sprintf("second handler invoked for stream %d", id))
+		cn.hmu.Unlock()
+		return
+	}
+	h := &hctl{id: id, cmds: make(chan hcmd, 16), res: make(chan hres, 16)}
+	cn.handlers[id] = h
+	cn.started = append(cn.started, id)
+	cn.hmu.Unlock()
+	cn.w.mu.Lock()
+	cn.w.cond.Broadcast()
+	cn.w.mu.Unlock()
+	for cmd := range h.cmds {
+		switch cmd.op {
+		case "read":
+			buf := make([]byte, 16384)
+			var got int64
+			tags := map[byte]bool{}
+			var rerr error
+			for got < cmd.n {
+				want := cmd.n - got
+				if want > int64(len(buf)) {
+					want = int64(len(buf))
+				}
+				n, e := r.Body.Read(buf[:want])
+				for _, b := range buf[:n] {
+					tags[b] = true
+				}
+				got += int64(n)
+				if e != nil {
+					rerr = e
+					break
+				}
+			}
+			res := hres{op: "read", n: got, tags: tags}
+			if rerr != nil {
+				res.err = rerr.Error()
+			}
+			h.res <- res
+		case "reply":
+			rw.WriteHeader(200)
+			rw.(http.Flusher).Flush()
+			h.res <- hres{op: "reply"}
+		case "write":
+			n, e := rw.Write(make([]byte, cmd.n))
+			rw.(http.Flusher).Flush()
+			res := hres{op: "write", n: int64(n)}
+			if e != nil {
+				res.err = e.Error()
+			}
+			h.res <- res
+		case "finish":
+			return
+		}
+	}
+}
+
+func (cn *conn) send(f spdy.Frame) error {
+	cn.wmu.Lock()
+	defer cn.wmu.Unlock()
+	cn.cli.SetWriteDeadline(time.Now().Add(10 * cn.base))
+	return cn.fr.WriteFrame(f)
+}
+
+// two PING round trips: everything the server queued before the first PING was processed
+// is on the wire before the second echo.
+func (cn *conn) sync() bool {
+	for i := 0; i < 2; i++ {
+		cn.pingSeq += 2
+		id := cn.pingSeq
+		if err := cn.send(&spdy.PingFrame{Id: id}); err != nil {
+			return false
+		}
+		ok := cn.w.waitFor(5*cn.base, func() bool { return cn.w.pings[id] || cn.w.closed || cn.w.goaway })
+		if !ok || !cn.w.pingSeen(id) {
+			return false
+		}
+	}
+	return true
+}
+
+func (w *wire) pingSeen(id uint32) bool {
+	w.mu.Lock()
+	defer w.mu.Unlock()
+	return w.pings[id]
+}
+
+func u32set(xs []uint32) string {
+	s := append([]uint32(nil), xs...)
+	sort.Slice(s, func(i, j int) bool { return s[i] < s[j] })
+	return fmt.Sprint(s)
+}
+
+func (cn *conn) startedSet() []uint32 {
+	cn.hmu.Lock()
+	defer cn.hmu.Unlock()
+	return append([]uint32(nil), cn.started...)
+}
+
+func hasRst(rs []rstExp, want rstExp) bool {
+	for _, r := range rs {
+		if r == want {
+			return true
+		}
+	}
+	return false
+}
+
+type connResult struct {
+	ID     int      `json:"id"`
+	OK     bool     `json:"ok"`
+	Sig    string   `json:"sig,omitempty"`
+	Detail string   `json:"detail,omitempty"`
+	Drift  string   `json:"drift,omitempty"`
+	Steps  int      `json:"steps"` // steps replayed and checked
+	Log    []string `json:"log,omitempty"`
+}
+
+var spdyState = spdy.GetSpdyState()
+
+func runConnCase(c connCase) (res connResult) {
+	res = connResult{ID: c.ID, OK: true}
+	slow := c.Slow
+	if slow < 1 {
+		slow = 1
+	}
+	cn := &conn{c: c, w: newWire(), handlers: map[uint32]*hctl{}, base: time.Duration(slow) * time.Second, pingSeq: 1001}
+	fail := func(sig, detail string) {
+		if res.OK {
+			res.OK = false
+			res.Sig = sig
+			res.Detail = detail
+		}
+	}
+	panicConn0, panicStream0 := spdyState.SpdyPanicConn.Get(), spdyState.SpdyPanicStream.Get()
+
+	cli, srv := net.Pipe()
+	cn.cli = cli
+	fr, err := spdy.NewFramer(cli, cli)
+	if err != nil {
+		return connResult{ID: c.ID, Sig: "machinery", Detail: err.Error()}
+	}
+	cn.fr = fr
+	defer fr.ReleaseWriter()
+	served := make(chan string, 1)
+	hs := &http.Server{ReadTimeout: time.Hour, GracefulShutdownTimeout: time.Hour}
+	go func() {
+		served <- vh.Guard(func() {
+			spdy.VerifServeConn(&spdy.Server{MaxConcurrentStreams: c.MaxS}, hs, srv, http.HandlerFunc(cn.handler))
+		})
+	}()
+	go cn.w.readLoop(fr)
+	if !cn.w.waitFor(10*cn.base, func() bool { return cn.w.settled || cn.w.closed }) || !cn.w.settled {
+		cli.Close()
+		return connResult{ID: c.ID, Sig: "machinery", Detail: "no SETTINGS from the server"}
+	}
+
+	ended := false // the model says the connection is over (GOAWAY / close)
+	for i, s := range c.Steps {
+		if ended {
+			break
+		}
+		stepName := fmt.Sprintf("step %d %s(id=%d,x=%d,f=%v) [%s]", i+1, s.A, s.ID, s.X, s.F, s.Why)
+		cn.w.mu.Lock()
+		rst0 := len(cn.w.rsts)
+		cn.w.note(">> " + stepName)
+		cn.w.mu.Unlock()
+		tag := byte(i + 1)
+		isClient := true
+		var werr error
+		var hr *hres
+		switch s.A {
+		case "syn":
+			f := &spdy.SynStreamFrame{StreamId: spdy.StreamId(s.ID), Headers: http.Header{
+				":method": {"POST"}, ":path": {"/"}, ":version": {"HTTP/1.1"}, ":host": {"verif.example"}, ":scheme": {"http"},
+				"x-id": {strconv.Itoa(int(s.ID))}}}
+			if s.F {
+				f.Headers[":method"] = []string{"GET"}
+				f.CFHeader.Flags = spdy.ControlFlagFin
+			}
+			werr = cn.send(f)
+		case "data":
+			d := make([]byte, s.X)
+			for j := range d {
+				d[j] = tag
+			}
+			f := &spdy.DataFrame{StreamId: spdy.StreamId(s.ID), Data: d}
+			if s.F {
+				f.Flags = spdy.DataFlagFin
+			}
+			werr = cn.send(f)
+		case "wu":
+			werr = cn.send(&spdy.WindowUpdateFrame{StreamId: spdy.StreamId(s.ID), DeltaWindowSize: uint32(s.X)})
+		case "rst":
+			werr = cn.send(&spdy.RstStreamFrame{StreamId: spdy.StreamId(s.ID), Status: spdy.Cancel})
+		case "settings":
+			werr = cn.send(&spdy.SettingsFrame{FlagIdValues: []spdy.SettingsFlagIdValue{{Flag: 0, Id: spdy.SettingsInitialWindowSize, Value: uint32(s.X)}}})
+		case "ping":
+			werr = cn.send(&spdy.PingFrame{Id: 7})
+		case "goaway":
+			werr = cn.send(&spdy.GoAwayFrame{LastGoodStreamId: 0, Status: spdy.GoAwayOK})
+		case "headers":
+			werr = cn.send(&spdy.HeadersFrame{StreamId: spdy.StreamId(s.ID), Headers: http.Header{"x-late": {"1"}}})
+		case "hread", "hreply", "hwrite", "hfinish":
+			isClient = false
+			cn.hmu.Lock()
+			h := cn.handlers[s.ID]
+			cn.hmu.Unlock()
+			if h == nil {
+				fail("machinery", stepName+": no handler for this stream (model and code out of step)")
+				ended = true
+				break
+			}
+			switch s.A {
+			case "hread":
+				h.cmds <- hcmd{"read", s.X}
+			case "hreply":
+				h.cmds <- hcmd{"reply", 0}
+			case "hwrite":
+				h.cmds <- hcmd{"write", s.X}
+			case "hfinish":
+				h.cmds <- hcmd{"finish", 0}
+				close(h.cmds)
+			}
+			if s.A == "hread" || s.A == "hreply" {
+				wantOp := s.A[1:]
+				deadline := time.After(10 * cn.base)
+				for hr == nil && !ended {
+					select {
+					case r := <-h.res:
+						if r.op == wantOp { // results of earlier (blocked) writes are skipped
+							hr = &r
+						}
+					case <-deadline:
+						fail("hang/"+s.A, stepName+": the handler call did not return within the timeout")
+						ended = true
+					}
+				}
+			}
+		default:
+			fail("machinery", "unknown step "+s.A)
+			ended = true
+		}
+		if ended {
+			break
+		}
+		if werr != nil {
+			cn.w.mu.Lock()
+			cn.w.note("write error: " + werr.Error())
+			cn.w.mu.Unlock()
+		}
+
+		// ---- 1. wait for what the model predicts
+		exp := s.Exp
+		matches := func() bool {
+			w := cn.w
+			if exp.Dead {
+				return w.closed
+			}
+			if exp.Goaway {
+				return w.goaway
+			}
+			if w.wuC != exp.WuC || w.outC != exp.OutC {
+				return false
+			}
+			for _, e := range exp.S {
+				if w.wuS[e.ID] != e.Wu || w.out[e.ID] != e.Out || (w.rep[e.ID] > 0) != e.Rep || w.fin[e.ID] != e.Fin {
+					return false
+				}
+			}
+			for _, r := range exp.Rsts {
+				if !hasRst(w.rsts, r) {
+					return false
+				}
+			}
+			return u32set(cn.startedSet()) == u32set(exp.Started)
+		}
+		// (the PING round trips come first: processSettings does not kick the write scheduler,
+		// data unblocked by a SETTINGS frame leaves only with the next event)
+		synced := false
+		cn.w.mu.Lock()
+		over := cn.w.closed || cn.w.goaway
+		cn.w.mu.Unlock()
+		if !over && !exp.Dead && !exp.Goaway {
+			synced = cn.sync()
+		}
+		matched := cn.w.waitFor(3*cn.base, func() bool { return matches() || (cn.w.closed && !exp.Dead && !exp.Goaway) })
+		if !synced {
+			cn.w.mu.Lock()
+			over = cn.w.closed || cn.w.goaway
+			cn.w.mu.Unlock()
+			if !over {
+				synced = cn.sync()
+			}
+		}
+		cn.w.mu.Lock()
+		w := cn.w
+		// ---- 3. Layer P
+		// 3a. outcome of a client frame
+		token := "acc"
+		var newRst []rstExp
+		newRst = append(newRst, w.rsts[rst0:]...)
+		switch {
+		case w.goaway:
+			token = "goaway"
+		case w.closed:
+			token = "close"
+		default:
+			for _, r := range newRst {
+				if r.ID == s.ID {
+					token = fmt.Sprintf("rst:%d", r.Code)
+				}
+			}
+		}
+		allowed := map[string]bool{}
+		for _, a := range s.Allowed {
+			allowed[a] = true
+		}
+		snapshot := fmt.Sprintf("wire: wuC=%d outC=%d wuS=%v out=%v rep=%v fin=%v rsts=%v goaway=%v closed=%v(%s) started=%v synced=%v",
+			w.wuC, w.outC, w.wuS, w.out, w.rep, w.fin, w.rsts, w.goaway, w.closed, w.readErr, cn.startedSet(), synced)
+		if !allowed[token] {
+			if !synced && !w.closed && !w.goaway {
+				fail("hang/sync/"+s.Why, stepName+": no PING echo within the timeout; "+snapshot)
+			} else {
+				fail(fmt.Sprintf("outcome/%s/%s", s.Why, token), fmt.Sprintf("%s: outcome %q not in the allowed set %v (model: %s); %s", stepName, token, s.Allowed, s.M, snapshot))
+			}
+		}
+		// RST_STREAM on a stream other than the one addressed (handler steps: only CANCEL on own stream)
+		for _, r := range newRst {
+			if r.ID != s.ID && !hasRst(exp.Rsts, r) {
+				fail(fmt.Sprintf("stray-rst/%s/rst:%d", s.Why, r.Code), fmt.Sprintf("%s: RST_STREAM(%d, status %d) on another stream; %s", stepName, r.ID, r.Code, snapshot))
+			}
+		}
+		// 3b. handlers started: only and all those the model started
+		got, want := cn.startedSet(), exp.Started
+		wantSet := map[uint32]bool{}
+		for _, x := range want {
+			wantSet[x] = true
+		}
+		for _, x := range got {
+			if !wantSet[x] && res.OK {
+				fail("started/"+s.Why, fmt.Sprintf("%s: a handler was started for stream %d; %s", stepName, x, snapshot))
+			}
+		}
+		cn.hmu.Lock()
+		if len(cn.extra) > 0 {
+			fail("started-extra/"+s.Why, stepName+": "+strings.Join(cn.extra, "; "))
+		}
+		cn.hmu.Unlock()
+		if token == s.M && len(got) < len(want) {
+			fail("not-started/"+s.Why, fmt.Sprintf("%s: handlers %v expected, %v started; %s", stepName, want, got, snapshot))
+		}
+		// 3c. replenishment: session WINDOW_UPDATEs = octets consumed; stream: never more
+		if w.wuC > exp.ConsC {
+			fail("overgrant/session/"+s.Why, fmt.Sprintf("%s: session WINDOW_UPDATEs add up to %d, handlers consumed %d; %s", stepName, w.wuC, exp.ConsC, snapshot))
+		} else if w.wuC < exp.ConsC && !w.closed && !w.goaway {
+			fail("replenish/session/"+s.Why, fmt.Sprintf("%s: session WINDOW_UPDATEs add up to %d, handlers consumed %d; %s", stepName, w.wuC, exp.ConsC, snapshot))
+		}
+		for _, e := range exp.S {
+			if w.wuS[e.ID] > e.Cons {
+				fail("overgrant/stream/"+s.Why, fmt.Sprintf("%s: stream %d WINDOW_UPDATEs add up to %d, handler consumed %d; %s", stepName, e.ID, w.wuS[e.ID], e.Cons, snapshot))
+			}
+			// 3d. DATA within the client's windows
+			if w.out[e.ID] > e.Lim {
+				fail("oversend/stream/"+s.Why, fmt.Sprintf("%s: %d DATA octets on stream %d, the client's window allows %d; %s", stepName, w.out[e.ID], e.ID, e.Lim, snapshot))
+			}
+		}
+		if w.outC > exp.LimC {
+			fail("oversend/session/"+s.Why, fmt.Sprintf("%s: %d DATA octets in total, the client's session window allows %d; %s", stepName, w.outC, exp.LimC, snapshot))
+		}
+		// 3e. silence on closed streams
+		if len(w.late) > 0 {
+			fail("after-close/"+s.Why, fmt.Sprintf("%s: %v after the stream was reset / finished; %s", stepName, w.late, snapshot))
+		}
+		for _, e := range exp.S {
+			if e.Quiet {
+				w.quiet[e.ID] = true
+			}
+		}
+		// 3f. body delivery
+		if hr != nil && s.A == "hread" {
+			if hr.n != s.X {
+				fail("body/short/"+s.Why, fmt.Sprintf("%s: handler read %d of %d accepted octets (err %q); %s", stepName, hr.n, s.X, hr.err, snapshot))
+			}
+			for t := range hr.tags {
+				k := int(t) - 1
+				if k < 0 || k >= len(c.Steps) || c.Steps[k].A != "data" || !contains(c.Steps[k].Allowed, "acc") {
+					fail("body/rejected-data-delivered", fmt.Sprintf("%s: handler read octets of the DATA frame of step %d, which was not accepted; %s", stepName, k+1, snapshot))
+				}
+			}
+		}
+		// ---- Layer M: exact agreement, otherwise drift and stop
+		if res.OK && (!matched || !matches() || token != s.M) {
+			res.Drift = fmt.Sprintf("%s: code and model differ inside Layer P (outcome %s, model %s); expected %+v; %s", stepName, token, s.M, exp, snapshot)
+			ended = true
+		}
+		_ = isClient
+		if exp.Dead || exp.Goaway || w.closed || w.goaway || !res.OK {
+			ended = true
+		}
+		w.mu.Unlock()
+		res.Steps = i + 1
+	}
+
+	// ---- end of the case: release handlers, close, the server must wind down without panic
+	cn.hmu.Lock()
+	for _, h := range cn.handlers {
+		func() {
+			defer func() { recover() }() // already closed by hfinish
+			h.cmds <- hcmd{"finish", 0}
+			close(h.cmds)
+		}()
+	}
+	cn.hmu.Unlock()
+	cli.Close()
+	select {
+	case p := <-served:
+		if p != "" {
+			fail("panic/serve-goroutine", p)
+		}
+	case <-time.After(20 * cn.base):
+		fail("hang/shutdown", "the serve loop did not return within the timeout after the client closed the connection")
+	}
+	time.Sleep(time.Millisecond)
+	if d := spdyState.SpdyPanicConn.Get() - panicConn0; d != 0 {
+		fail("panic/serve-loop", fmt.Sprintf("bfe_spdy counted %d recovered panic(s) of the serve loop (SPDY_PANIC_CONN) during this script", d))
+	}
+	if d := spdyState.SpdyPanicStream.Get() - panicStream0; d != 0 {
+		fail("panic/handler", fmt.Sprintf("bfe_spdy counted %d panic(s) on handler goroutines (SPDY_PANIC_STREAM) during this script", d))
+	}
+	if !res.OK || res.Drift != "" {
+		cn.w.mu.Lock()
+		res.Log = append([]string(nil), cn.w.log...)
+		cn.w.mu.Unlock()
+	}
+	return res
+}
+
+func connRun() {
+	spdyState.SpdyPanicConn = new(metrics.Counter)
+	spdyState.SpdyPanicStream = new(metrics.Counter)
+	n := 0
+	vh.EachCase(func(line []byte) {
+		var c connCase
+		if err := json.Unmarshal(line, &c); err != nil {
+			vh.Emit(map[string]string{"_fatal": "bad case: " + err.Error()})
+			return
+		}
+		// a panic on one of the server's reader/writer goroutines kills the process:
+		// leave a trace of the case being replayed
+		fmt.Fprintf(os.Stderr, "CASE %d\n", c.ID)
+		vh.Emit(runConnCase(c))
+		n++
+		if n%32 == 0 {
+			vh.Flush()
+		}
+	})
+	vh.Emit(map[string]interface{}{"summary": true, "cases": n})
+}
+
+func contains(xs []string, x string) bool {
+	for _, y := range xs {
+		if y == x {
+			return true
+		}
+	}
+	return false
+}
+
+var _ = io.EOF
